@@ -338,7 +338,7 @@ func (c *crashRun) runChild(dir string, at int) (string, int) {
 	go func() { done <- cmd.Wait() }()
 	select {
 	case <-done:
-	case <-time.After(60 * time.Second):
+	case <-time.After(patience(60 * time.Second)):
 		cmd.Process.Kill()
 		<-done
 		return "timeout", -2
@@ -405,7 +405,7 @@ func recoverAndProbe(dir string, bigFirst bool) (res string) {
 			return
 		}
 		if imm() > before {
-			deadline := time.Now().Add(30 * time.Second)
+			deadline := time.Now().Add(patience(30 * time.Second))
 			for imm() != 0 && time.Now().Before(deadline) {
 				time.Sleep(300 * time.Microsecond)
 			}
